@@ -8,6 +8,9 @@ package config
 // as a real number (a NaN ratio is not greater than 1 and therefore invalid).
 //@ predicate ValidSpec(c *Config) = c.Version > 0 && c.WALDir != "" && c.SSTDir != "" && c.MemTableSize > 0 && c.MaxMemTables > 0 && c.SSTableBlockSize > 0 && c.SSTableIndexSize > 0 && c.CompactionLevels > 0 && c.CompactionRatio > float(1) && c.ReadOnlyTxTTL > 0 && c.ReadWriteTxTTL > 0 && c.IdleTxTimeout > 0 && c.TxCleanupInterval > 0 && 0 < c.TxWarningThreshold && c.TxWarningThreshold < c.TxCriticalThreshold && c.TxCriticalThreshold < 100
 
+//@ func (*Config).validateLocked
+//@   ensures[C20] (result == nil) <==> ValidSpec(c)
+//@   ensures[C20] result != nil ==> errors.Is(result, ErrInvalidConfig)
 //@ func (*Config).Validate
 //@   ensures[C20] (result == nil) <==> ValidSpec(c)
 //@   ensures[C20] result != nil ==> errors.Is(result, ErrInvalidConfig)
